@@ -24,6 +24,8 @@ func main() {
 	switch os.Args[1] {
 	case "C01", "C05", "C10":
 		runHistories(r)
+	case "C08":
+		runC08(r)
 	default:
 		fmt.Println("chainmc: unknown property", os.Args[1])
 		os.Exit(2)
